@@ -255,21 +255,15 @@ theorem abstract_contents_flag {S : Schema} {M : Struct} {f : StructField} {ext 
             · rintro ⟨a', n', E', ha', he', hl', habs⟩
               cases ha'; rw [he] at he'; cases he'; rw [hl] at hl'; cases hl'; exact habs
           | alias x =>
-            simp only [hl] at h
-            split at h
-            · simp [pure, Except.pure] at h; obtain ⟨rfl, _⟩ := h
-              simp only [Bool.false_eq_true, false_iff]
-              rintro ⟨a', n', E', ha', he', hl', _⟩
-              cases ha'; rw [he] at he'; cases he'; rw [hl] at hl'; cases hl'
-            · simp [throw, throwThe, MonadExceptOf.throw] at h
+            simp [hl, pure, Except.pure] at h; obtain ⟨rfl, _⟩ := h
+            simp only [Bool.false_eq_true, false_iff]
+            rintro ⟨a', n', E', ha', he', hl', _⟩
+            cases ha'; rw [he] at he'; cases he'; rw [hl] at hl'; cases hl'
           | enum x =>
-            simp only [hl] at h
-            split at h
-            · simp [pure, Except.pure] at h; obtain ⟨rfl, _⟩ := h
-              simp only [Bool.false_eq_true, false_iff]
-              rintro ⟨a', n', E', ha', he', hl', _⟩
-              cases ha'; rw [he] at he'; cases he'; rw [hl] at hl'; cases hl'
-            · simp [throw, throwThe, MonadExceptOf.throw] at h
+            simp [hl, pure, Except.pure] at h; obtain ⟨rfl, _⟩ := h
+            simp only [Bool.false_eq_true, false_iff]
+            rintro ⟨a', n', E', ha', he', hl', _⟩
+            cases ha'; rw [he] at he'; cases he'; rw [hl] at hl'; cases hl'
     · simp [hd, pure, Except.pure] at h
       obtain ⟨rfl, _⟩ := h
       simp only [Bool.false_eq_true, false_iff]
@@ -326,6 +320,46 @@ theorem propagateUnaligned_order_irrelevant {S : Schema} {order1 order2 seeds re
   intro n
   rw [unaligned_exact hcover1 h1, unaligned_exact hcover2 h2]
 
+/-- **unaligned_terminates**: the fuel of the model loop is never the limit.  Every pass but the last adds a name of the iteration
+    order to `already_marked`, which stays duplicate free, so `order.length + 1` passes suffice; with an iteration order that lists
+    each struct name once (`order.length <= S.length`) the only way `propagateUnaligned` fails is the `RuntimeError` of the
+    member phase (an array member in a marked descendant), never "out of fuel". -/
+theorem unaligned_terminates {S : Schema} {order seeds : List String} (hord : order.Nodup) (hlen : order.length ≤ S.length) :
+    (∃ req, propagateUnaligned S order seeds = .ok req) ∨ (∃ e, propagateUnaligned S order seeds = .error e ∧ MemberPhaseError S e) := by
+  unfold propagateUnaligned
+  cases hl : unalignedLoop S order (S.length + 1) ⟨seeds.foldl addName [], []⟩ with
+  | ok st => exact Or.inl ⟨st.req, rfl⟩
+  | error e =>
+    refine Or.inr ⟨e, rfl, ?_⟩
+    exact unalignedLoop_error hord _ _ e List.nodup_nil (fun _ h => by cases h) (by simp; omega) hl
+
+/-- **unaligned_marks_monotone**: the marks are monotone in the schema.  If `S'` has everything `S` has (`Extends`: every name
+    of `S` resolves to the same declaration in `S'`, every struct of `S` is in `S'`) then every struct marked for `S` is marked for
+    `S'`, whatever the two iteration orders - adding declarations never removes a mark. -/
+theorem unaligned_marks_monotone {S S' : Schema} (hext : Extends S S') {order order' req req' : List String}
+    (hcover' : ∀ n, factoryOf S' n ≠ none → n ∈ order')
+    (h : requiresUnaligned S order = .ok req) (h' : requiresUnaligned S' order' = .ok req') : ∀ n ∈ req, n ∈ req' := by
+  unfold requiresUnaligned at h h'
+  obtain ⟨seeds, hs, hp⟩ := dbind_eq_ok.mp h
+  obtain ⟨seeds', hs', hp'⟩ := dbind_eq_ok.mp h'
+  intro n hn
+  have hd := unaligned_upper hp n hn
+  exact unaligned_lower hcover' hp' n (demanded_extends hext (unalignedSeeds_extends hext hs hs') hd)
+
+/-- in particular: appending a declaration with a fresh name never removes a mark -/
+theorem marks_survive_added_declaration {S : Schema} {d : Decl} (hfresh : ∀ x ∈ S, x.name ≠ d.name) {order order' req req' : List String}
+    (hcover' : ∀ n, factoryOf (S ++ [d]) n ≠ none → n ∈ order')
+    (h : requiresUnaligned S order = .ok req) (h' : requiresUnaligned (S ++ [d]) order' = .ok req') : ∀ n ∈ req, n ∈ req' :=
+  unaligned_marks_monotone (extends_append_fresh S d hfresh) hcover' h h'
+
+/-- the same for the factory map: a struct that records factory type `k` is still listed under `k` after a declaration is appended
+    (`childrenOf` is a filter of the declaration list) -/
+theorem factory_children_monotone (S : Schema) (d : Decl) (k : String) : ∀ c ∈ childrenOf S k, c ∈ childrenOf (S ++ [d]) k := by
+  intro c hc
+  unfold childrenOf at *
+  rw [List.filter_append, List.map_append]
+  exact List.mem_append_left _ hc
+
 /-! ## non-vacuity -/
 
 def exampleSchema : Schema :=
@@ -378,10 +412,16 @@ example : (requiresUnaligned orderExample ["Tt", "Gg", "Dd", "Ff", "Uu", "Holder
 example : (requiresUnaligned orderExample ["Gg", "Tt", "Dd", "Ff", "Uu", "Holder"]).toOption = some ["Ff", "Gg", "Tt", "Dd", "Uu"] := by
   decide
 
+/-- adding a further descendant (here of the marked factory) adds its mark and removes none -/
+def extraDescendant : Decl :=
+  .struct { name := "Extra", factoryType := some "Ff", fields := [.field { name := "kind", fieldType := .int ⟨true, 1, none⟩ }] }
+
+example : (requiresUnaligned (orderExample ++ [extraDescendant])
+    ["Extra", "Tt", "Gg", "Dd", "Ff", "Uu", "Holder"]).toOption = some ["Ff", "Extra", "Gg", "Dd", "Tt", "Uu"] := by
+  decide
+
 /-
 Stated, not proved:
-* `unaligned_terminates`: `S.length + 1` passes always suffice (every pass but the last adds a struct name to `already_marked`, which
-  only ever holds names of structs of `S`); the theorems above are about runs that return.
 * the final `bound_field` of a member after the whole `_bind_size_fields` loop (the last writer wins when a member is the size of
   several arrays); the step theorems above describe each write, `size_fields_monotone` that `size_fields` are never lost.
 -/
